@@ -9,6 +9,8 @@ import (
 	"os"
 	"os/exec"
 	"path/filepath"
+	"runtime"
+	"runtime/debug"
 	"strconv"
 	"strings"
 	"syscall"
@@ -336,6 +338,9 @@ func corruptChild(args []string) int {
 	// a corrupted length must not be able to take the machine down
 	lim := syscall.Rlimit{Cur: 6 << 30, Max: 6 << 30}
 	syscall.Setrlimit(syscall.RLIMIT_AS, &lim)
+	debug.SetGCPercent(1000)
+	ballast := make([]byte, 64<<20)
+	defer runtime.KeepAlive(ballast)
 	pf, err := os.Create(progPath)
 	if err != nil {
 		fmt.Fprintln(os.Stderr, err)
@@ -390,7 +395,7 @@ func runCorruption(c *vc.Ctx, pl plan) error {
 		acc := newCorruptResult()
 		results[sh] = acc
 		startPos, startFlip, huge := 0, 0, 2
-		for attempt := 0; attempt < 12; attempt++ {
+		for attempt := 0; attempt < 60; attempt++ {
 			out := filepath.Join(c.Scratch, fmt.Sprintf("corrupt-%d-%d.json", sh, attempt))
 			prog := filepath.Join(c.Scratch, fmt.Sprintf("corrupt-%d-%d.progress", sh, attempt))
 			cmd := exec.Command(bin, "--child", "codeclab-corrupt", strconv.FormatInt(c.Seed, 10), c.Tier, strconv.Itoa(sh), strconv.Itoa(nshards),
@@ -451,6 +456,7 @@ func runCorruption(c *vc.Ctx, pl plan) error {
 			startPos, startFlip, huge = pos, flip+1, 0
 		}
 	})
+	var deaths int64
 	for sh := 0; sh < nshards; sh++ {
 		if inconcl[sh] != "" {
 			c.Inconclusive("corruption shard " + strconv.Itoa(sh) + ": " + inconcl[sh])
@@ -463,6 +469,7 @@ func runCorruption(c *vc.Ctx, pl plan) error {
 				crashes[sig] = e
 			}
 			total.ByCodec["crash/"+e.Detail["codec"].(string)]++
+			deaths++
 		}
 	}
 	c.Ev.Count("corruption_flips", total.Flips)
@@ -472,7 +479,7 @@ func runCorruption(c *vc.Ctx, pl plan) error {
 	c.Ev.Count("corruption_decoder_panics", total.Panics)
 	c.Ev.Count("corruption_huge_length_flips_executed", total.ExecutedHuge)
 	c.Ev.Count("corruption_huge_length_flips_skipped", total.SkippedHuge)
-	c.Ev.Count("corruption_process_deaths", int64(len(crashes)))
+	c.Ev.Count("corruption_process_deaths", deaths)
 	c.Ev.Set("corruption_undetected_by_codec_and_field", total.UndetectedByField)
 	c.Ev.Set("corruption_flips_by_codec", total.ByCodec)
 	emit := func(sig string, e *example) {
@@ -495,7 +502,7 @@ func runCorruption(c *vc.Ctx, pl plan) error {
 		emit(sig, e)
 	}
 	fmt.Printf("C16 corruption: %d flips: %d detected, %d identical, %d undetected, %d decoder panics, %d process deaths, %d huge-length flips skipped\n",
-		total.Flips, total.Detected, total.Identical, total.Undetected, total.Panics, len(crashes), total.SkippedHuge)
+		total.Flips, total.Detected, total.Identical, total.Undetected, total.Panics, deaths, total.SkippedHuge)
 	return nil
 }
 
